@@ -817,7 +817,7 @@ func init() {
 			"Mutational: generated valid texts (depth<=8, width<=8, up to 4 KiB) and hand seeds: every truncation, 65-token dictionary insert/substitute and byte/range delete at every offset (sampled beyond 48 bytes), raw byte noise. " +
 			"State-merged BFS (hook): pairs (library scanner control state, reference state), nesting depth<=4 (quick) / 5 (thorough), all 256 byte values per pair, every edge confirmed by a real Check verdict on a witness text. " +
 			"Non-trivial = the reference consumes at least one significant byte (text not blank and not refused at its first non-blank byte); exhaustive strings and BFS pairs are distinct by construction " +
-			"(A2 strings made only of symbols shared with A1 are not counted again), mutants are hashed. Accepted texts whose value is not valid UTF-8 are Unspecified (executed, not compared).",
+			"(A2 strings made only of symbols shared with A1 are not counted again), mutants are hashed. Accepted texts whose value is not valid UTF-8 are Unspecified (executed, not compared). The verdict is also compared with Check() after Len(), after a broken Document was checked, and after 1..4 or all lexemes were read from the same Document (kind after-len).",
 		Assumptions: []string{
 			"AllowTrailingNonSpaceCharacters takes tokens maximally without backtracking: `1x`, `0123`, `truex` are accepted (values 1, 0, true), `1.x`, `-x`, `1e+`, `trux` are rejected",
 			"well-formedness of UTF-8 inside strings is not part of the statement (texts the byte grammar accepts but that are not UTF-8 are not judged)",
